@@ -197,6 +197,83 @@ def reduces_case(TB, ex, bex, ob, env, s):
     return err <= TOL, {'err': err}
 
 
+def real_aw_flags(ex, dn, env, edot):
+    """flags from the REAL check_eq of a live anti-windup limiter: limited variable and bounds from env, the
+    derivative of its state given"""
+    import numpy as np
+    d = ex['host'].discrete[dn]
+    env = dict(env, rate_lower=-100.0, rate_upper=100.0)      # rate limits (AntiWindupRate) far away
+    for a in ('u', 'lower', 'upper', 'rate_lower', 'rate_upper'):
+        if hasattr(d, a):
+            _setv(getattr(d, a), env)
+    d.list2array(1)
+    d.state.e = np.array([float(edot)])
+    d.u.e = d.state.e
+    d.state.a = np.array([0])
+    d.state.v = np.array(d.u.v, dtype=float) if d.state is d.u else np.array([0.0])
+    d.check_eq(allow_adjust=False, niter=0)
+    return {fn: float(fv[0]) for fn, fv in zip(d.get_names(), d.get_values())}
+
+
+def limits_stream(ctx, TB, exs, n_per):
+    """the limiters of the limited variants act on the DOCUMENTED variable with the DOCUMENTED bounds: at a random
+    point strictly inside the documented range the real check_var of the live discrete object says `inside`
+    (so the block reduces to the unlimited one there); strictly outside, a hard limiter says so"""
+    rng = ctx.rng
+    for name, lims in TB.DOC_LIMITS.items():
+        if name not in exs:
+            continue
+        ex = exs[name]
+        live = {d['name']: d for d in ex['discrete']}
+        for k in range(n_per):
+            env = {p: rng.uniform(0.2, 2.0) for p in ex['symbolic']}
+            for v in ex['vars']:
+                env[v['name']] = rng.uniform(-1, 1)
+            rngs = {}
+            for (dn, var, lo, hi) in lims:
+                a = rng.uniform(-3, 1)
+                rngs[dn] = (a, a + rng.uniform(0.5, 4))
+                env[lo], env[hi] = rngs[dn]
+            # one limiter is probed, the variables of the others sit inside their own documented ranges
+            probe = rng.choice(lims)
+            where = rng.choice(['inside', 'inside', 'below', 'above'])
+            for (dn, var, lo, hi) in lims:
+                a, b = rngs[dn]
+                if (dn, var, lo, hi) == probe and where != 'inside':
+                    env[var] = a - rng.uniform(0.05, 2) if where == 'below' else b + rng.uniform(0.05, 2)
+                else:
+                    env[var] = rng.uniform(a + 0.02 * (b - a), b - 0.02 * (b - a))
+            dn, var, lo, hi = probe
+            case = {'variant': name, 'kind': 'limits', 'limiter': dn, 'where': where, 'env': jsonable(env)}
+            ctx.count('kind:limits')
+            if dn not in live:
+                ctx.oracle_fail('limiter-missing:' + name, '%s: the documented limiter %s does not exist on the live block' % (name, dn), case)
+                continue
+            kind = live[dn]['cls']
+            edot = rng.choice([-1.0, 1.0]) * rng.uniform(0.1, 2)
+            if kind == 'HardLimiter':
+                fl = real_flags(ex, env, (kind,))
+            else:
+                fl = real_aw_flags(ex, dn, env, edot)
+                case['derivative'] = edot
+            zi, zl, zu = fl.get(dn + '_zi'), fl.get(dn + '_zl'), fl.get(dn + '_zu')
+            ctx.case((name, dn, where, kind, edot > 0), {'case': case, 'flags': [zi, zl, zu]} if k == 0 else None)
+            want = None
+            if where == 'inside':
+                want = (1.0, 0.0, 0.0)
+            elif kind == 'HardLimiter':
+                want = (0.0, 1.0, 0.0) if where == 'below' else (0.0, 0.0, 1.0)
+            elif kind in ('AntiWindup', 'AntiWindupRate'):
+                # "if x > xmax and x dot > 0: x = xmax and x dot = 0; if x < xmin and x dot < 0: ..."; returning: inactive
+                act = (where == 'below' and edot < 0) or (where == 'above' and edot > 0)
+                want = ((0.0, 1.0, 0.0) if where == 'below' else (0.0, 0.0, 1.0)) if act else (1.0, 0.0, 0.0)
+            if want is not None and (zi, zl, zu) != want:
+                ctx.oracle_fail('limiter-acts-on-other-bounds:' + name,
+                                '%s: %s = %.4g is %s the documented range [%s, %s] = [%.4g, %.4g], but the live %s %s reports '
+                                '(zi, zl, zu) = %r: inside its limits the block does not reduce to the unlimited one'
+                                % (name, var, env[var], where, lo, hi, env[lo], env[hi], kind, dn, (zi, zl, zu)), case)
+
+
 def zero_pattern(env):
     return ''.join('0' if v == 0 else '+' if (not isinstance(v, complex) and v > 0) else '-' for v in env.values())
 
@@ -228,6 +305,7 @@ def block_stream(ctx, n_per):
                 apply_eqs(TB, env, ob)
                 s = complex(ctx.rng.uniform(-2, 2), ctx.rng.uniform(0.05, 6) * ctx.rng.choice([-1, 1]))
                 run_case(ctx, TB, exs, name, ob, env, s)
+    limits_stream(ctx, TB, exs, n_per)
 
 
 def run_case(ctx, TB, exs, name, ob, env, s):
